@@ -30,7 +30,7 @@ Section Thm.
     linv (fst (fst (dstep mkdig v o))) (snd (fst (dstep mkdig v o))).
   Proof.
     intros [A B] o L ND. cbn [fst snd] in L.
-    destruct o as [sd d b | sd d | sd d b | d | d]; cbn [dstep no_delete] in *.
+    destruct o as [sd d b | sd d | sd d b | d | d | f d]; cbn [dstep no_delete] in *.
     - destruct sd; cbn [on_side fst snd].
       + rewrite (edit_is_write mkdig A B A L (or_introl eq_refl)). apply write_A; auto.
       + rewrite (edit_is_write mkdig A B B L (or_intror eq_refl)). apply write_B; auto.
@@ -38,10 +38,12 @@ Section Thm.
     - destruct sd; cbn [on_side fst snd].
       + rewrite (resurrect_noop mkdig A B A L (or_introl eq_refl)). exact L.
       + rewrite (resurrect_noop mkdig A B B L (or_intror eq_refl)). exact L.
-    - cbn [fst snd]. destruct (transfer mkdig false A B) as [q st] eqn:E. cbn [fst snd].
+    - cbn [fst snd]. destruct (transfer mkdig None A B) as [q st] eqn:E. cbn [fst snd].
       destruct (push_result mkdig mkdig_inj A B L) as [L' _]. rewrite E in L'. exact L'.
-    - cbn [fst snd]. destruct (transfer mkdig true B A) as [q st] eqn:E. cbn [fst snd].
+    - cbn [fst snd]. destruct (transfer mkdig (Some default_policy) B A) as [q st] eqn:E. cbn [fst snd].
       destruct (pull_result mkdig mkdig_inj A B L) as [L' _]. rewrite E in L'. exact L'.
+    - cbn [fst snd]. destruct (transfer mkdig (Some f) B A) as [q st] eqn:E. cbn [fst snd].
+      destruct (pull_result_pol mkdig mkdig_inj f ND A B L) as [L' _]. rewrite E in L'. exact L'.
   Qed.
 
   Definition slinv (s : sys) : Prop := forall d, linv (fst (s d)) (snd (s d)).
@@ -70,16 +72,16 @@ Section Thm.
   Qed.
 
   (* one document: pull, then push *)
-  Theorem pull_push_converges : forall A B, linv A B ->
-    let A1 := fst (transfer mkdig true B A) in
-    let B1 := fst (transfer mkdig false A1 B) in
+  Theorem pull_push_converges_pol : forall pol, policy_ok pol -> forall A B, linv A B ->
+    let A1 := fst (transfer mkdig (Some pol) B A) in
+    let B1 := fst (transfer mkdig None A1 B) in
     obs A1 = obs B1 /\ linv A1 B1.
   Proof.
-    intros A B L. cbn zeta.
-    destruct (pull_result mkdig mkdig_inj A B L) as [L1 K1].
-    set (A1 := fst (transfer mkdig true B A)) in *.
+    intros pol POK A B L. cbn zeta.
+    destruct (pull_result_pol mkdig mkdig_inj pol POK A B L) as [L1 K1].
+    set (A1 := fst (transfer mkdig (Some pol) B A)) in *.
     destruct (push_result mkdig mkdig_inj A1 B L1) as [L2 K2].
-    set (B1 := fst (transfer mkdig false A1 B)) in *.
+    set (B1 := fst (transfer mkdig None A1 B)) in *.
     split; auto. unfold obs.
     destruct (cur A1) as [ca|] eqn:CA.
     - assert (BL : below (ptree A1) (cur B) ca).
@@ -100,6 +102,12 @@ Section Thm.
       rewrite EB1. unfold cur_del, cur_body. rewrite CA, CB. reflexivity.
   Qed.
 
+  Theorem pull_push_converges : forall A B, linv A B ->
+    let A1 := fst (transfer mkdig (Some default_policy) B A) in
+    let B1 := fst (transfer mkdig None A1 B) in
+    obs A1 = obs B1 /\ linv A1 B1.
+  Proof. exact (pull_push_converges_pol default_policy default_policy_ok). Qed.
+
   Lemma step_same : forall s o d, op_doc o = d -> step mkdig s o d = fst (dstep mkdig (s d) o).
   Proof. intros s o d <-. unfold step, upd. rewrite N.eqb_refl. reflexivity. Qed.
 
@@ -119,7 +127,25 @@ Section Thm.
     rewrite (step_same s0 (Pull d) d eq_refl). cbn [dstep fst snd].
     destruct (s0 d) as [A B] eqn:E. cbn [fst snd] in *.
     destruct (pull_push_converges A B L) as [O _]. cbn zeta in O.
-    destruct (transfer mkdig true B A) as [A1 st1]. cbn [fst snd] in *.
-    destruct (transfer mkdig false A1 B) as [B1 st2]. cbn [fst snd] in *. exact O.
+    destruct (transfer mkdig (Some default_policy) B A) as [A1 st1]. cbn [fst snd] in *.
+    destruct (transfer mkdig None A1 B) as [B1 st2]. cbn [fst snd] in *. exact O.
+  Qed.
+
+  (* the same for ANY resolver (localWins, remoteWins, a custom function that may merge), which may change from
+     one pull to the next (every PullP of the history carries its own) *)
+  Theorem isgr_converges_live_pol : forall pol, policy_ok pol -> forall ops d, Forall no_delete ops ->
+    let s := run mkdig (run mkdig sys0 ops) [PullP pol d; Push d] in
+    obs (fst (s d)) = obs (snd (s d)).
+  Proof.
+    intros pol POK ops d F. cbn zeta. cbn [run fold_left].
+    pose proof (run_linv ops sys0 (fun _ => linv0) F d) as L.
+    set (s0 := run mkdig sys0 ops) in *.
+    change (fold_left (step mkdig) ops sys0) with s0.
+    rewrite (step_same (step mkdig s0 (PullP pol d)) (Push d) d eq_refl).
+    rewrite (step_same s0 (PullP pol d) d eq_refl). cbn [dstep fst snd].
+    destruct (s0 d) as [A B] eqn:E. cbn [fst snd] in *.
+    destruct (pull_push_converges_pol pol POK A B L) as [O _]. cbn zeta in O.
+    destruct (transfer mkdig (Some pol) B A) as [A1 st1]. cbn [fst snd] in *.
+    destruct (transfer mkdig None A1 B) as [B1 st2]. cbn [fst snd] in *. exact O.
   Qed.
 End Thm.
